@@ -89,6 +89,21 @@ func (i *interpreter) txLive(fr *frame, p *value) iface {
 	return iface{}
 }
 
+// sqlSweep rolls back every live transaction whose context has ended (what
+// database/sql's per-transaction watcher goroutine does asynchronously).
+func (i *interpreter) sqlSweep(fr *frame) {
+	tab, _ := i.side["sqltx"].(map[*value]*sqlTxState)
+	for _, st := range tab {
+		if st.done {
+			continue
+		}
+		if e := i.ctxErr(fr, st.ctx); e.t != nil {
+			st.done = true
+			i.sqlHook(fr, "rollback", nil, nil)
+		}
+	}
+}
+
 func init() {
 	externals[zzPkg+"SetSQLHook"] = func(fr *frame, a []value) value {
 		fr.i.side["sqlhook"] = a[0]
